@@ -285,7 +285,7 @@ def theorem_statements(props_file):
 def print_assumptions(module, names, timeout=600):
     """Returns dict name -> list of axioms ([] = closed under the global context), or None on failure."""
     os.makedirs(os.path.join(ALT or CACHE, "audit"), exist_ok=True)
-    f = os.path.join(ALT or CACHE, "audit", "Audit_%s.v" % module.replace(".", "_"))
+    f = os.path.join(ALT or CACHE, "audit", "Audit_%s_%d.v" % (module.replace(".", "_"), os.getpid()))
     with open(f, "w") as fh:
         fh.write("Require Import %s.\n" % module)
         for n in names:
@@ -297,6 +297,10 @@ def print_assumptions(module, names, timeout=600):
     for n in names:
         p = "%s.%s.out" % (f[:-2], n)
         txt = open(p).read() if os.path.exists(p) else ""
+        try:
+            os.remove(p)
+        except OSError:
+            pass
         if "Closed under the global context" in txt:
             res[n] = []
         else:
